@@ -163,7 +163,7 @@ func genC11(g *Gen) {
 		s0 := key(init)
 		seen[s0] = []c11op{}
 		queue = append(queue, s0)
-		for len(queue) > 0 && len(seen) < 400 {
+		for len(queue) > 0 && len(seen) < 6*(len(content)+2) { // a faithful cursor has len+2 states; beyond a few times that the graph is being left (every extra state is a rejected observation already)
 			cur := queue[0]
 			queue = queue[1:]
 			path := seen[cur]
